@@ -58,6 +58,9 @@ static std::string full_digest(SoPlex& spx, bool withSolution = true)
       if(spx.hasPrimalRay()) { VectorReal v(nn); for(int j = 0; j < nn; ++j) v[j] = 12345.0; spx.getPrimalRay(v); for(int j = 0; j < nn; ++j) o << "," << hexd(v[j]); }
       if(spx.hasDualFarkas()) { VectorReal w(mm); for(int i = 0; i < mm; ++i) w[i] = 12345.0; spx.getDualFarkas(w); for(int i = 0; i < mm; ++i) o << "," << hexd(w[i]); }
    }
+   // integrality information handed over by the user (read from the solver's private copy; there is no getter)
+   o << "|I";
+   for(int j = 0; j < spx._solver.integerVariables.size(); ++j) o << spx._solver.integerVariables[j];
    // rational LP, if present
    o << "|R" << (spx._rationalLP != nullptr);
    if(spx._rationalLP != nullptr)
@@ -230,9 +233,9 @@ static uint64_t run_medium(int shape, int seed, const ConfigSpace::Cfg& cfg, Ctx
 // ---- (b) copies --------------------------------------------------------------------------------------
 static const char* BASE = "n=2;m=2;max=1;off=3;c=1,2;lo=0,0;up=4,inf;lhs=-inf,-1;rhs=4,2;A=8,1|0.5,-2";
 static const char* INITN[] = {"empty", "loaded", "solved", "solved-no-presolve", "basis-set", "rational-lp-present", "rational-solved", "persistent-scaled",
-                              "unbounded-no-presolve", "infeasible-no-presolve", "infeasible-exact"
+                              "unbounded-no-presolve", "infeasible-no-presolve", "infeasible-exact", "integrality-polishing"
                              };
-static const int NINIT = 11;
+static const int NINIT = 12;
 static void make_init(SoPlex& spx, Model& mo, int kind)
 {
    quiet(spx);
@@ -241,6 +244,19 @@ static void make_init(SoPlex& spx, Model& mo, int kind)
    if(kind == 5 || kind == 6) spx.setIntParam(SoPlex::SYNCMODE, SoPlex::SYNCMODE_AUTO);
    if(kind == 3 || kind == 7 || kind == 8 || kind == 9) spx.setIntParam(SoPlex::SIMPLIFIER, SoPlex::SIMPLIFIER_OFF);
    if(kind == 10) spx.setIntParam(SoPlex::SYNCMODE, SoPlex::SYNCMODE_AUTO);
+   if(kind == 11)
+   {
+      // integrality information + polishing towards integrality on an LP with a face of optima (x_k + z_k = const, equal costs): the information handed over with
+      // setIntegralityInformation() is part of what a copy must carry - it decides which vertex the polishing step ends at
+      spx.setIntParam(SoPlex::SIMPLIFIER, SoPlex::SIMPLIFIER_OFF);
+      spx.setIntParam(SoPlex::SOLUTION_POLISHING, SoPlex::POLISHING_INTEGRALITY);
+      TinyLP lp = TinyLP::parse("n=4;m=2;max=0;off=0;c=1,1,1,1;lo=0,0,0,0;up=10,10,10,10;lhs=1.5,2.5;rhs=1.5,2.5;A=1,0,1,0|0,1,0,1");
+      load_real(spx, lp, 0);
+      mo = Model::from(lp);
+      int info[4] = {1, 1, 0, 0};
+      spx.setIntegralityInformation(4, info);
+      return;
+   }
    if(kind >= 8)
    {
       // unbounded: max x0+x1, x0-x1<=1; infeasible: x0+x1<=1, x0+x1>=2 (unique structure, certificates exist without presolve)
